@@ -100,6 +100,12 @@ def make_recipes(seed, n_random):
         varkind = rng.choice(["list", "list", "tuple", "dictkeys", "generator", "iter", "set", "frozenset"])
         recipes.append({"id": f"c{j}", "kind": "compiled", "src": G.src(e), "vars": listed,
                         "varkind": varkind, "allvars": allvars, "nontrivial": True})
+    # depth: towers of one family, 100 .. 450 levels (from some depth on the key computation
+    # refuses: then it refuses in every process alike)
+    for fam in ("sum-in-product", "cse", "call", "subscript-aggregate", "neg"):
+        for depth in (100, 250, 400, 450):
+            recipes.append({"id": f"d_{fam}_{depth}", "kind": "deepexpr", "src": f"tower({fam!r}, {depth})",
+                            "nontrivial": True})
     return recipes
 
 
@@ -145,6 +151,8 @@ def c_pair(ctx, case):
             ctx.count(f"proto:{ev['proto']}")
             ctx.count("kind:" + r["kind"])
             ctx.count("hash_first" if ev["hash_first"] else "hash_after")
+            if isinstance(ev["hash_first"], str):
+                ctx.count("key_before_pickling")
             if "hash" in ev:
                 hashes.setdefault(ev["recipe"], set()).add(ev["hash"])
             if ev["problems"]:
@@ -195,4 +203,6 @@ def workload(ctx):
     ctx.floor("process_pairs", 8)
     ctx.floor("hash_first", 2000)
     ctx.floor("kind:compiled", 100)
+    ctx.floor("kind:deepexpr", 100)
+    ctx.floor("key_before_pickling", 1000)
     ctx.floor("recipes_whose_hash_differs_between_the_two_processes", 200)
